@@ -64,7 +64,54 @@ func (c *Ctx) isSiteD(k *siteKind, in ssa.Instruction, depth int) bool {
 	if f == nil || f.Blocks == nil || f.Pkg == nil || !inRepo(f.Pkg.Pkg) {
 		return false
 	}
-	return c.mustDo(k, f, depth+1)
+	if c.mustDo(k, f, depth+1) {
+		return true
+	}
+	// "run this under the lock" helpers: a function literal handed to a repo function that
+	// calls its parameter on every path counts as called here
+	for i, a := range call.Common().Args {
+		mc, ok := a.(*ssa.MakeClosure)
+		if !ok || i >= len(f.Params) {
+			continue
+		}
+		g, ok := mc.Fn.(*ssa.Function)
+		if !ok || !c.mustCallParam(f, f.Params[i]) {
+			continue
+		}
+		if c.mustDo(k, g, depth+1) {
+			return true
+		}
+	}
+	return false
+}
+
+// mustCallParam: every non-failing path through f calls the function it received as p.
+func (c *Ctx) mustCallParam(f *ssa.Function, p *ssa.Parameter) bool {
+	isCall := func(in ssa.Instruction) bool {
+		call, ok := in.(ssa.CallInstruction)
+		if !ok {
+			return false
+		}
+		if _, isGo := in.(*ssa.Go); isGo {
+			return false
+		}
+		return call.Common().Value == ssa.Value(p)
+	}
+	any := false
+	eachInstr(f, func(in ssa.Instruction) {
+		if isCall(in) {
+			any = true
+		}
+	})
+	if !any {
+		return false
+	}
+	target := func(in ssa.Instruction) bool {
+		r, ok := in.(*ssa.Return)
+		return ok && !isFailureReturn(r)
+	}
+	hit, _ := findPath(f, entry, isCall, target, nil)
+	return hit == nil
 }
 
 func (c *Ctx) mustDo(k *siteKind, f *ssa.Function, depth int) bool {
